@@ -268,7 +268,13 @@ func (dec *ttlvReader) LongInteger(tag int) (int64, error) {
 }
 
 func (dec *ttlvReader) BigInteger(tag int) (*big.Int, error) {
+	if err := dec.assertType(TypeBigInteger, tag); err != nil {
+		return nil, err
+	}
 	v := dec.value()
+	if len(v) == 0 {
+		return nil, Errorf("Empty big integer for tag %s", TagString(tag))
+	}
 	return bytesToBigInt(v), dec.Next()
 }
 
